@@ -17,13 +17,14 @@ NOT_CONSTRAINED = ['which of two end causes injected at the same virtual instant
 ASSUMPTIONS = ['cooperative scheduling only']
 
 ACTIONS = ('message', 'close-packet', 'disconnect-sid', 'disconnect-all', 'deadline-then-send', 'ws-drop', 'poll-timeout',
-           'protocol-error', 'poll', 'send', 'deadline-then-close-packet', 'late-frame-after-close', 'post-to-other')
+           'protocol-error', 'poll', 'send', 'deadline-then-close-packet', 'late-frame-after-close', 'post-to-other',
+           'close-packet-request-cancelled')
 ENDS = {'close-packet': ('client disconnect',), 'disconnect-sid': ('server disconnect',), 'disconnect-all': ('server disconnect',),
         'deadline-then-send': ('ping timeout',), 'ws-drop': ('transport close', 'transport error'),
         'poll-timeout': ('transport error', 'transport close', 'ping timeout'),
         'protocol-error': ('server disconnect', 'transport error'),
         'deadline-then-close-packet': ('client disconnect', 'ping timeout'),
-        'late-frame-after-close': ('client disconnect',)}
+        'late-frame-after-close': ('client disconnect',), 'close-packet-request-cancelled': ('client disconnect',)}
 EXCS = (None, RuntimeError('boom'), TypeError('bad operand'), KeyError('k'), ZeroDivisionError('z'))
 MODES = ('polling', 'websocket', 'upgraded')
 
@@ -33,7 +34,7 @@ def _applicable(action, mode):
         return mode != 'polling'
     if action in ('poll-timeout', 'poll'):
         return mode == 'polling'
-    if action == 'protocol-error':
+    if action in ('protocol-error', 'close-packet-request-cancelled'):
         return mode == 'polling'
     return True
 
@@ -49,6 +50,14 @@ def _run_history(fl, mode, acts, msg_exc, disc_exc, legacy, monitor_on=False):
                 if disc_exc is not None:
                     raise disc_exc
             sut.srv.on('disconnect', legacy_disconnect)
+        if 'close-packet-request-cancelled' in acts and fl == 1 and not legacy and disc_exc is None:
+            # the application's disconnect handler is a coroutine that awaits (a database write, say)
+            ev_log = sut.events
+
+            async def slow_disconnect(sid_, reason):
+                ev_log.append(('disconnect', sid_, reason))
+                await sut.shim.sleep(1)
+            sut.srv.on('disconnect', slow_disconnect)
         if msg_exc is not None:
             sut.raise_in['message'] = msg_exc
         if disc_exc is not None and not legacy:
@@ -120,6 +129,15 @@ def _run_history(fl, mode, acts, msg_exc, disc_exc, legacy, monitor_on=False):
                     sut.run(until=sut.k.now + sut.srv.ping_interval + sut.srv.ping_timeout + 1)
                     if not g0.done or sut.status(g0) != 200:
                         break
+            elif a == 'close-packet-request-cancelled':
+                # the client POSTs CLOSE and drops the connection: the web server cancels the task serving that request
+                # while the application's disconnect handler is still awaiting
+                r_ = sut.post(sid, '1')
+                sut.settle()
+                if fl == 1 and not r_.done:
+                    r_.task.cancel()
+                    sut.settle()
+                sut.run(until=sut.k.now + 2)
             elif a == 'protocol-error':
                 sut.post(sid, '7')
                 sut.settle()
@@ -352,6 +370,121 @@ def racing_ends(fl: int, mi: int, c0: int, c1: int, slow: bool, s0: int, s1: int
     post: _ == ''
     """
     return verdict(untraced(_race, fl, mi, c0, c1, slow, s0, s1, s2))
+
+
+FOLLOW = ('message', 'close-packet', 'disconnect-sid', 'send', 'poll', 'protocol-error')
+
+
+def _slow_handler(fl, mi, c0, f0):
+    """The application's disconnect handler is slow (it blocks / awaits for a virtual second). While it is still running the
+    client or the application does something else with the session. Exactly one disconnect event, nothing after it."""
+    mode = MODES[mi]
+    cause, follow = RACERS[c0], FOLLOW[f0]
+    if cause in ('ws-drop', 'close-packet-ws-then-drop') and mode == 'polling':
+        return ''
+    if cause == 'protocol-error' and mode != 'polling':
+        return ''
+    sut = mk(fl, async_handlers=False, monitor_clients=False)
+    st = dict(flavour=sut.flavour, mode=mode, cause=cause, follow=follow, slow_handler=True)
+    try:
+        log = sut.events
+        if fl == 0:
+            def slow_disconnect(sid_, reason):
+                log.append(('disconnect', sid_, reason))
+                sut.srv.sleep(1)
+        else:
+            async def slow_disconnect(sid_, reason):
+                log.append(('disconnect', sid_, reason))
+                await sut.shim.sleep(1)
+        sut.srv.on('disconnect', slow_disconnect)
+        sut.open('polling')
+        sut.settle()
+        other = sut.sids()[0]
+        peer = None
+        if mode == 'websocket':
+            r = sut.open('websocket')
+            sut.settle()
+            peer = r.peer
+        else:
+            sut.open('polling')
+            sut.settle()
+        sid = sut.sids()[1]
+        if mode == 'upgraded':
+            u = sut.ws_upgrade(sid)
+            sut.settle()
+            u.peer.send('2probe')
+            sut.settle()
+            u.peer.send('5')
+            sut.settle()
+            peer = u.peer
+        if cause == 'send-after-deadline':
+            sut.run(until=sut.k.now + sut.srv.ping_interval + sut.srv.ping_timeout + 1)
+            if [1 for k_, s_, a_ in sut.events if k_ == 'disconnect' and s_ == sid]:
+                return ''
+        if cause == 'close-packet':
+            peer.send('1') if peer is not None else sut.post(sid, '1')
+        elif cause == 'disconnect-sid':
+            sut.app_disconnect(sid)
+        elif cause == 'ws-drop':
+            peer.close()
+        elif cause == 'protocol-error':
+            sut.post(sid, '7')
+        elif cause == 'send-after-deadline':
+            sut.app_send(sid, 'late')
+        elif cause == 'close-packet-ws-then-drop':
+            peer.send('1')
+            peer.close()
+        sut.settle()            # the disconnect handler has started and is now waiting
+        if not [1 for k_, s_, a_ in sut.events if k_ == 'disconnect' and s_ == sid]:
+            return ''
+        if follow == 'message':
+            if peer is not None and not peer.client_closed:
+                peer.send('4during')
+            sut.post(sid, '4during-post')
+        elif follow == 'close-packet':
+            if peer is not None and not peer.client_closed:
+                peer.send('1')
+            sut.post(sid, '1')
+        elif follow == 'disconnect-sid':
+            sut.app_disconnect(sid)
+        elif follow == 'send':
+            sut.app_send(sid, 'x')
+        elif follow == 'poll':
+            sut.get(sid)
+        elif follow == 'protocol-error':
+            sut.post(sid, '8')
+        sut.settle()
+        sut.run(until=sut.k.now + 3)
+        sut.post(sid, '4afterwards')
+        sut.settle()
+        sut.post(other, '4other-still-works')
+        sut.settle()
+        mine = [(k_, a_) for k_, s_, a_ in sut.events if s_ == sid]
+        if [k_ for k_, a_ in mine].count('connect') != 1 or mine[0][0] != 'connect':
+            return fail(PROP, 'CONNECT-FIRST-ONCE', 'events %r' % (mine,), **st)
+        discs = [a_ for k_, a_ in mine if k_ == 'disconnect']
+        if len(discs) != 1:
+            return fail(PROP, 'DISCONNECT-ONCE', '%d disconnect events (%s, then %s while the disconnect handler was still running): %r' % (
+                len(discs), cause, follow, mine), **st)
+        i = [k_ for k_, a_ in mine].index('disconnect')
+        if mine[i + 1:]:
+            return fail(PROP, 'EVENT-AFTER-DISCONNECT', 'events %r after the disconnect event (%s ended the session; %s arrived while the '
+                        'disconnect handler was still running)' % (mine[i + 1:], cause, follow), **st)
+        theirs = [(k_, a_) for k_, s_, a_ in sut.events if s_ == other]
+        if theirs != [('connect', None), ('message', 'other-still-works')]:
+            return fail(PROP, 'OTHER-SESSION', 'bystander events %r' % (theirs,), **st)
+        return ''
+    finally:
+        sut.close()
+
+
+@cond(quick=dict(timeout=120), thorough=dict(timeout=300))
+def slow_disconnect_handler(fl: int, mi: int, c0: int, f0: int) -> str:
+    """
+    pre: 0 <= fl <= 1 and 0 <= mi <= 2 and 0 <= c0 < len(RACERS) and 0 <= f0 < len(FOLLOW)
+    post: _ == ''
+    """
+    return verdict(untraced(_slow_handler, fl, mi, c0, f0))
 
 
 CONNECTS = (False, 0, 'no', RuntimeError('x'), TypeError('t'))
